@@ -409,7 +409,8 @@ OnOut(h, pkt) ==
               THEN Viol(h1a, "C09", "an outbound packet cannot be decoded by an independent MQTT 5 decoder") ELSE h1a
       \* C13: the packet a cancelled call had left half-written did not survive (something cut into it)
       h1b1 == IF d.st # "ok" /\ Len(h1a.v) > Len(h0.v) /\ h.cmid
-              THEN Viol(Tick(h1b0, "C13"), "C13", "the packet a cancelled operation left half-written was corrupted by what followed")
+              THEN Viol(Viol(Tick2(h1b0, "C13", "C15"), "C13", "the packet a cancelled operation left half-written was corrupted by what followed"),
+                        "C15", "a packet the transport had taken only part of was corrupted by what followed")
               ELSE h1b0
       \* C07: a request packet without (or with a zero) identifier
       h1b == IF d.st # "ok" /\ Len(h1a.v) > Len(h0.v) /\ ZeroId(pkt)
@@ -996,7 +997,9 @@ StepRet(h, e) ==
       hgd == IF o.name = "disconnect" /\ ~o.deadcall /\ e.r.k = "ok" /\ h.taint = 0 /\ ~h.dcan
                 /\ ~(h.wtail = << >> /\ h.wdisc)
              THEN LET x == Viol(ha, "C01", "disconnect() returned Ok but the stream does not end with a whole DISCONNECT packet")
-                  IN IF h.cmid THEN Viol(Tick(x, "C13"), "C13", "the packet a cancelled operation left half-written was corrupted by what followed")
+                  \* (a packet is half-written only where the transport took part of it: also a matter of C15)
+                  IN IF h.cmid THEN Viol(Viol(Tick2(x, "C13", "C15"), "C13", "the packet a cancelled operation left half-written was corrupted by what followed"),
+                                         "C15", "a packet the transport had taken only part of was corrupted by what followed")
                      ELSE x
              ELSE ha
       hb == IF o.name # "conn" /\ hgd.up /\ DeathTrigger(h, e)
